@@ -355,12 +355,13 @@ theorem quiet_forceFail (w : World) (t : Nat) : Quiet w (forceFail w t).1 := by
       exact h1.trans (quiet_stopOne _ w2 _ _ _ h2)
     · exact h1
 
-theorem quiet_kids (c : Cfg) (f : Nat) (hm : ∀ w x, Quiet w (prop c f .pause w x).1) (l : List Nat) :
+theorem quiet_kids (c : Cfg) (f : Nat) (hm : ∀ w x, Quiet w (prop c f .pause w x).1)
+    (hm' : ∀ w x, Quiet w (prop c f .belowP w x).1) (l : List Nat) :
     ∀ (w0 : World) (acc : World × Bool), Quiet w0 acc.1 →
       Quiet w0 (l.foldl (fun (acc : World × Bool) k =>
         if acc.2 then acc else
         match acc.1.execs[k]? with
-        | some ek => if isCompleted ek.state then acc else prop c f .pause acc.1 k
+        | some ek => if isCompleted ek.state then prop c f .belowP acc.1 k else prop c f .pause acc.1 k
         | none => acc) acc).1 := by
   induction l with
   | nil => intro w0 acc h; exact h
@@ -372,7 +373,7 @@ theorem quiet_kids (c : Cfg) (f : Nat) (hm : ∀ w x, Quiet w (prop c f .pause w
     · exact h
     · split
       · split
-        · exact h
+        · exact h.trans (hm' _ _)
         · exact h.trans (hm _ _)
       · exact h
 
@@ -380,16 +381,24 @@ theorem quiet_kids (c : Cfg) (f : Nat) (hm : ∀ w x, Quiet w (prop c f .pause w
     again), never set an execution RUNNING and create no task row in a blocked execution -/
 theorem quiet_prop_pause (c : Cfg) : ∀ (f : Nat),
     (∀ w x, Quiet w (prop c f .pause w x).1) ∧
-    (∀ w x e, w.execs[x]? = some e → isPaused e.state = true → Quiet w (prop c f .update w x).1) := by
+    (∀ w x e, w.execs[x]? = some e → isPaused e.state = true → Quiet w (prop c f .update w x).1) ∧
+    (∀ w x, Quiet w (prop c f .belowP w x).1) := by
   intro f
   induction f with
-  | zero => exact ⟨fun w x => Quiet.refl w, fun w x e _ _ => Quiet.refl w⟩
+  | zero =>
+    refine ⟨fun w x => Quiet.refl w, fun w x e he _ => ?_, fun w x => Quiet.refl w⟩
+    simp only [prop, updateLocal, he]
+    split
+    · exact Quiet.refl w
+    · exact quiet_taskUpdate w _ _
   | succ f ih =>
-    obtain ⟨ih1, ih2⟩ := ih
-    constructor
+    obtain ⟨ih1, ih2, ih3⟩ := ih
+    refine ⟨?_, ?_, fun w x => by
+      simp only [prop]
+      exact quiet_kids c f ih1 ih3 (kidsOf w x) w (w, false) (Quiet.refl w)⟩
     · intro w x
       simp only [prop]
-      have hk := quiet_kids c f ih1 (kidsOf w x) w (w, false) (Quiet.refl w)
+      have hk := quiet_kids c f ih1 ih3 (kidsOf w x) w (w, false) (Quiet.refl w)
       generalize (kidsOf w x).foldl _ (w, false) = r at hk ⊢
       split
       · exact hk
@@ -442,15 +451,10 @@ theorem quiet_step (c : Cfg) (w : World) (ev : Event) (hq : QuietEv ev = true) :
     · cases h : stopOne w a s (.op msg) with
       | none => exact Quiet.refl w
       | some w' => exact quiet_stopOne w w' a s _ h
-  | lose it =>
-    simp only [step]
-    split
-    · exact Quiet.refl w
-    · exact Quiet.of_same rfl rfl
   | pause a =>
     simp only [step]
     split
-    · exact Quiet.of_same rfl rfl
+    · exact Quiet.refl w
     · exact (quiet_prop_pause c _).1 w a
   | resume a => simp [QuietEv] at hq
   | execute t ok =>
